@@ -3,7 +3,7 @@ from fractions import Fraction
 
 from hypothesis import strategies as st
 
-from .. import neighbours, runner, stats, sut
+from .. import common, neighbours, runner, stats, sut
 from .. import model as M
 
 ID = "C04"
@@ -75,7 +75,7 @@ def cases(draw, n):
         s1, s2 = draw(st.lists(st.sampled_from(SALTS), min_size=2, max_size=2, unique=True))
     if {s1, s2} == {None, ""}:
         s2 = "other"
-    case = {"cond": draw(st.sampled_from([0, 0, 1, 2])), "second": draw(st.sampled_from(["fresh", "recompile", "recompile"])), "family": fam, "offset": draw(st.sampled_from([0, 1, 1000, 10 ** 6, 10 ** 9, 123456789, 2 ** 31, 10 ** 12, 2 ** 53 - 7, 2 ** 60,
+    case = {"cond": draw(st.sampled_from([0, 0, 1, 2, 3])), "second": draw(st.sampled_from(["fresh", "recompile", "recompile"])), "family": fam, "offset": draw(st.sampled_from([0, 1, 1000, 10 ** 6, 10 ** 9, 123456789, 2 ** 31, 10 ** 12, 2 ** 53 - 7, 2 ** 60,
                                                            2 ** 63 - 200000, 1541815603606036480, 10 ** 24])), "weights": ws,
             "salts": [s1, s2], "n": n}
     if len(ws) >= 3 and draw(st.integers(0, 3)) == 0:
@@ -94,6 +94,14 @@ def _text(case, salt, ws):
         f = "region" if case["family"] == "two-field" and case["cond"] == 2 else "uid"
         body = M.if_([(M.cmp_(M.ident(f), "in", M.tup([M.lit_str("qa-account-1"), M.lit_str("qa-account-2")])),
                        M.ret([(M.lit_str("qa"), "1")]))], body)
+    if case.get("cond") == 3:
+        # targeting rules whose grouping parentheses matter: ( true or x ) and false  /  not ( false or true ) - neither diverts
+        # this population as written, both would if the grouping were lost
+        I, S = M.ident, M.lit_str
+        inner = body["else"]
+        g1 = M.and_(M.or_(M.cmp_(I("uid"), "!=", S("qa-1")), M.cmp_(I("uid"), "==", S("qa-3")), 1), M.cmp_(I("uid"), "==", S("qa-2")))
+        g2 = M.not_(M.or_(M.cmp_(I("uid"), "==", S("qa-1")), M.cmp_(I("uid"), "!=", S("qa-1")), 1))
+        body = M.if_([(g1, M.ret([(S("qa"), "1")])), (g2, M.ret([(S("qa2"), "1")]))], inner)
     q = "'" if salt is not None and '"' in salt else '"'
     return M.render(M.program("pop", body, salt=salt, splitters=sp, salt_q=q))
 
@@ -161,6 +169,9 @@ def judge(case):
             ev = evs[0]
             if si == 1:
                 try:
+                    if case["n"] % 2 == 0 and len(case["weights"]) % 2:
+                        common.refused_deploy(ev, texts[1])
+                        tags.append("refused-deploy-before-the-second-salt")
                     ev.recompile(texts[1])
                 except Exception as e:
                     return {"viol": ["recompile raised %s: %s | %s" % (type(e).__name__, e, texts[1])], "tags": tags}
@@ -220,7 +231,7 @@ def fixed_cases(n):
                "salts": [s2, s1], "n": n}
     yield {"second": "fresh", "family": "seq-int", "offset": 0, "weights": ["2", "1", "1", "2"], "salts": ["A", "B"], "n": n,
            "labels": [M.enc(x) for x in ["control", "treatment", "holdout", "treatment"]]}
-    for fam, c in (("seq-int", 1), ("email", 1), ("two-field", 2), ("two-field", 1), ("uuid-sequential", 1)):
+    for fam, c in (("seq-int", 1), ("email", 1), ("two-field", 2), ("two-field", 1), ("uuid-sequential", 1), ("zero-padded", 3), ("two-field", 3)):
         yield {"cond": c, "second": "fresh", "family": fam, "offset": 5, "weights": ["1", "3"], "salts": ["A", "B"], "n": n}
     yield {"second": "fresh", "family": "email", "offset": 7, "weights": ["1", "2", "1"], "salts": ["A", "B"], "n": n,
            "labels": [M.enc(x) for x in ["B", "B'", '"B']]}
